@@ -1,6 +1,7 @@
 import Driver.Proto
 import PolyVerif.Model.MeshHeap
 import PolyVerif.Model.MeshPure
+import PolyVerif.Model.MeshClasses
 
 /-!
   C01 driver.  Three kinds of request:
@@ -288,6 +289,11 @@ def handle (op : String) (args : List String) : Option String :=
     | some (s, _) => some s
     | none => some "false"
   | "c01.shape" => (shapeRequest.run args).map (·.1)
+  | "c01.class" =>
+    -- the hand classification (Model/MeshClasses.lean, the table `classification_from_source` is about)
+    match args with
+    | [fn] => some (match PolyVerif.MeshClasses.handClass fn with | some c => c.wire | none => "none")
+    | _ => none
   | "c01.append" => (appendRequest.run args).map (·.1)
   | "c01.holds.rederive" =>
     match args with
